@@ -3,6 +3,7 @@ use crate::dirx::*;
 use crate::engine::*;
 use crate::ensure;
 use crate::props::c15::*;
+use crate::sched::block_on_paused;
 use crate::vdb::*;
 use akd::append_only_zks::DEFAULT_AZKS_KEY;
 use akd::storage::types::DbRecord;
@@ -224,6 +225,151 @@ pub fn check(case: &Case, ctx: &mut Ctx) -> R {
     r
 }
 
+// ------------------------------------------------------------------ concurrency variant (deterministic scheduler)
+#[derive(serde::Serialize, serde::Deserialize, Clone, Debug)]
+pub struct ConcCase {
+    pub cache: CacheKind,
+    /// writes committed before the concurrent phase (so that the cache starts cold or warm)
+    pub setup: Vec<Rec>,
+    pub warm: bool,
+    /// actor 0: writer (plain writes and begin / writes / commit blocks); others: readers
+    pub writer: Vec<Op>,
+    pub readers: Vec<Vec<Op>>,
+    pub schedules: Vec<Vec<u8>>,
+    pub enumerate: u32,
+}
+
+async fn all_keys_equal(subj: &StorageManager<VDb>, plain: &StorageManager<akd::storage::memory::AsyncInMemoryDatabase>, what: &str) -> R {
+    for u in 0..3u8 {
+        for e in 0..8u8 {
+            compare_read(&Op::GetVs { u, e }, subj, plain, what).await?;
+        }
+    }
+    for k in 0..4u8 {
+        compare_read(&Op::GetNode { k }, subj, plain, what).await?;
+    }
+    compare_read(&Op::GetAzks, subj, plain, what).await?;
+    compare_read(&Op::BatchGetNode(vec![0, 1, 2, 3]), subj, plain, what).await?;
+    compare_read(&Op::BatchGetVs((0..3).flat_map(|u| (0..8).map(move |e| (u, e))).collect()), subj, plain, what).await
+}
+
+async fn conc_schedule(case: &ConcCase, policy: &crate::sched::Policy, stats: &mut (u64, u64)) -> R<usize> {
+    use crate::sched::*;
+    let vdb = VDb::new();
+    let subj = manager(vdb.clone(), case.cache);
+    let plain = StorageManager::new_no_cache(vdb.inner.clone());
+    let mut vers = Versions::default();
+    let setup: Vec<DbRecord> = case.setup.iter().filter_map(|r| build_rec(r, &mut vers)).collect();
+    if !setup.is_empty() {
+        vdb.inner.batch_set(setup, DbSetState::General).await.unwrap();
+    }
+    if case.warm {
+        all_keys_equal(&subj, &plain, "warm-up").await?;
+    }
+    // pre-build the writer's records (versions must stay well-formed)
+    let mut wops: Vec<(Op, Vec<DbRecord>)> = vec![];
+    for op in &case.writer {
+        let recs = match op {
+            Op::Set(r) => build_rec(r, &mut vers).into_iter().collect(),
+            Op::BatchSet(v) => v.iter().filter_map(|r| build_rec(r, &mut vers)).collect(),
+            _ => vec![],
+        };
+        wops.push((op.clone(), recs));
+    }
+    vdb.ctl.sched.store(true, Ordering::SeqCst);
+    let mut actors: Vec<Actor<'_, ()>> = vec![];
+    {
+        let subj = &subj;
+        actors.push(Box::pin(async move {
+            let mut in_tx = false;
+            let mut have_azks = false;
+            for (op, recs) in wops {
+                match op {
+                    Op::Set(_) | Op::BatchSet(_) if !recs.is_empty() => {
+                        have_azks |= recs.iter().any(|r| matches!(r, DbRecord::Azks(_)));
+                        let _ = subj.batch_set(recs).await;
+                    }
+                    Op::Begin if !in_tx => {
+                        in_tx = subj.begin_transaction();
+                        have_azks = false;
+                    }
+                    Op::Commit if in_tx => {
+                        if !have_azks {
+                            let _ = subj.set(DbRecord::Azks(Azks { latest_epoch: 77, num_nodes: 3 })).await;
+                        }
+                        let _ = subj.commit_transaction().await;
+                        in_tx = false;
+                    }
+                    Op::Rollback if in_tx => {
+                        let _ = subj.rollback_transaction();
+                        in_tx = false;
+                    }
+                    _ => {}
+                }
+            }
+            if in_tx {
+                let _ = subj.rollback_transaction();
+            }
+        }));
+    }
+    for ops in &case.readers {
+        let subj = &subj;
+        let plain = &plain;
+        actors.push(Box::pin(async move {
+            for op in ops {
+                if is_read(op) {
+                    // the answer itself may legitimately be the value before or after a concurrent write
+                    let _ = compare_read(op, subj, plain, "concurrent read (not judged)").await;
+                }
+            }
+        }));
+    }
+    let (_, trace) = run_actors(actors, policy, 20_000).await;
+    vdb.ctl.sched.store(false, Ordering::SeqCst);
+    stats.0 += 1;
+    if trace.preemptions > 0 {
+        stats.1 += 1;
+    }
+    let what = format!("after quiescence of schedule {} (actor per step {:?})", show_policy(policy, trace.steps.len()), trace.steps);
+    ensure!(!trace.deadlock, "sched-deadlock", "{what}: actors did not finish");
+    ensure!(!subj.is_transaction_active(), "tx-flag", "{what}: transaction left open");
+    all_keys_equal(&subj, &plain, &what).await?;
+    Ok(trace.steps.len())
+}
+
+pub fn conc_check(case: &ConcCase, ctx: &mut Ctx) -> R {
+    use crate::sched::*;
+    let mut stats = (0u64, 0u64);
+    let r = block_on_paused(async {
+        let t = conc_schedule(case, &Policy::Preempt(vec![]), &mut stats).await? as u32;
+        for s in &case.schedules {
+            conc_schedule(case, &Policy::Bytes(s.clone()), &mut stats).await?;
+        }
+        let others = case.readers.len() as u8;
+        if case.enumerate > 0 && others > 0 {
+            let stride = ((t as u64 * others as u64) / case.enumerate as u64).max(1);
+            let mut idx = 0u64;
+            for s in 0..t {
+                for a in 0..others {
+                    if idx % stride == 0 {
+                        conc_schedule(case, &Policy::Preempt(vec![(s, a)]), &mut stats).await?;
+                        conc_schedule(case, &Policy::Preempt(vec![(s, a), (s + 2, a)]), &mut stats).await?;
+                    }
+                    idx += 1;
+                }
+            }
+        }
+        Ok(())
+    });
+    ctx.count("schedules", stats.0);
+    ctx.count("schedules_with_preemption", stats.1);
+    if stats.1 > 0 {
+        ctx.nontrivial(fp_json(case));
+        ctx.sample(&serde_json::json!({"cache": case.cache, "writer": case.writer, "readers": case.readers, "warm": case.warm, "n_random_schedules": case.schedules.len()}));
+    }
+    r
+}
+
 pub fn op16_strategy() -> impl Strategy<Value = Op> {
     prop_oneof![
         12 => rec_strategy().prop_map(Op::Set),
@@ -259,5 +405,24 @@ pub fn run(eng: &mut Engine) {
         eng.tier.pick(40_000, 400_000),
         move || (cache_strategy(), proptest::collection::vec(op16_strategy(), 1..=max_ops)).prop_map(|(cache, ops)| Case { cache, ops }),
         check,
+    );
+    eng.max_shrink = Some(100);
+    eng.prop_part(
+        "concurrent",
+        "concurrency variant on the deterministic scheduler: one writer actor (plain writes and begin/writes/commit or rollback blocks) and 1-2 reader actors (all read kinds) on one cached manager over a cold or warmed cache, yield points before and after every database operation; non-preemptive, strided single/double preemptions and generated random schedules; oracle: after quiescence every key of the universe read through the manager (single and batched) equals the database; non-trivial = run under a preempting schedule; distinct by case",
+        eng.tier.pick(250, 3000),
+        || {
+            (
+                prop_oneof![Just(CacheKind::Default), (0u16..1, 0u16..1, 2u16..4).prop_map(|(a, b, c)| CacheKind::Custom(a, b, c))],
+                proptest::collection::vec(rec_strategy(), 0..8),
+                any::<bool>(),
+                proptest::collection::vec(prop_oneof![6 => rec_strategy().prop_map(Op::Set), 2 => proptest::collection::vec(rec_strategy(), 1..4).prop_map(Op::BatchSet), 2 => Just(Op::Begin), 2 => Just(Op::Commit), 1 => Just(Op::Rollback)], 1..10),
+                proptest::collection::vec(proptest::collection::vec(read_strategy(), 1..6), 1..3),
+                proptest::collection::vec(crate::props::c12::schedule_strategy(120), 12),
+                Just(60u32),
+            )
+                .prop_map(|(cache, setup, warm, writer, readers, schedules, enumerate)| ConcCase { cache, setup, warm, writer, readers, schedules, enumerate })
+        },
+        conc_check,
     );
 }
